@@ -7,6 +7,7 @@ import (
 	"os"
 	"os/exec"
 	"runtime"
+	"runtime/pprof"
 	"sync"
 	"time"
 )
@@ -21,6 +22,22 @@ func ShardMain(name, tier string, shard, n int) int {
 	if f == nil {
 		fmt.Fprintln(os.Stderr, "unknown shard function", name)
 		return 2
+	}
+	if path := os.Getenv("VERIF_HEAPPROF"); path != "" {
+		// debugging aid: heap profile after 40 s
+		go func() {
+			time.Sleep(40 * time.Second)
+			runtime.GC()
+			if fh, err := os.Create(path); err == nil {
+				_ = pprof.WriteHeapProfile(fh)
+				fh.Close()
+			}
+			if fh, err := os.Create(path + ".goroutines"); err == nil {
+				_ = pprof.Lookup("goroutine").WriteTo(fh, 1)
+				fh.Close()
+			}
+			os.Exit(3)
+		}()
 	}
 	res := f(tier, shard, n)
 	b, err := json.Marshal(res)
